@@ -279,6 +279,14 @@ pub fn shape_programs() -> Vec<String> {
     };
     for a in tys { for r in tys { mk(&[a], r); } }
     for a in tys { for b in tys { for r in ["()", "u8", "[u8; 0]", a] { mk(&[a, b], r); } } }
+    // the join built-in: rows with associated data of different widths on the two sides
+    let rows = ["(u8, u16, u16)", "(u8, bool)", "(u8, u32)", "(u8, (u8, u8), i64)", "(u8, [bool; 3])"];
+    for ra in rows { for rb in rows {
+        for (n, m) in [(2usize, 3usize), (3, 1)] {
+            out.push(format!("pub fn main(a: [{ra}; {n}], b: [{rb}; {m}]) -> [(bool, {ra}, {rb}); const {{ {n}usize + {m}usize - 1usize }}] {{ join(a, b) }}\n"));
+        }
+    } }
+    for k in ["u8", "u16", "[u8; 2]"] { out.push(format!("pub fn main(a: [{k}; 3], b: [{k}; 2]) -> [(bool, {k}); const {{ 3usize + 2usize - 1usize }}] {{ join(a, b) }}\n")); }
     out.sort(); out.dedup();
     out
 }
